@@ -2,11 +2,19 @@ use crate::core::{Ctx, Verdict};
 use serde_json::Value;
 
 pub mod c01;
+pub mod c02;
+pub mod c03;
+pub mod c07;
+pub mod c15;
 pub mod c11;
 
 pub fn run(ctx: &'static Ctx) {
     match ctx.property.as_str() {
         "C01" => c01::run(ctx),
+        "C02" => c02::run(ctx),
+        "C03" => c03::run(ctx),
+        "C07" => c07::run(ctx),
+        "C15" => c15::run(ctx),
         "C11" => c11::run(ctx),
         p => crate::core::machinery_panic(&format!("no driver for {}", p)),
     }
@@ -32,6 +40,10 @@ pub fn replay(prop: &str, case: &Value) -> Verdict {
     }
     match prop {
         "C01" => c01::replay(case),
+        "C02" => c02::replay(case),
+        "C03" => c03::replay(case),
+        "C07" => c07::replay(case),
+        "C15" => c15::replay(case),
         "C11" => c11::replay(case),
         p => crate::core::machinery_panic(&format!("no replay for {}", p)),
     }
